@@ -209,6 +209,7 @@ func (c *checker) reportBlock(progs []string, idx int, what, detail []string) {
 const blockChunk = 24
 
 func TestCheck(t *testing.T) {
+	vk.UseT(t)
 	if os.Getenv("C04_DEV") != "" {
 		t.Skip()
 	}
